@@ -298,49 +298,91 @@ def flw2(ctx):
                 ret = [arg_name(x) for x in t["items"]]
     if not ret:
         raise AnchorMissing("parse_aliases: `Ok((a, b))` not found")
-    # colour propagation: a container is coloured by the AliasKind named in the outermost loop that writes it,
-    # and by the colours of the containers mentioned in the written value (fixpoint)
-    loops = for_loops(pa.hir["body"])
-    loop_nodes = [(pat, it, body, ln, {id(x) for x in hirq.walk(body)} if body is not None else set()) for pat, it, body, ln in loops]
-    outer = [L for L in loop_nodes if not any(id(L[2]) in M[4] for M in loop_nodes if M is not L)]
-    params = set(pa.param_names)
-    colours = {}
+    # colour propagation (HirId-keyed; helpers of this module are looked through): a container is coloured by the AliasKind
+    # used in the outermost loop that writes it and by the colours of the containers its value is computed from (fixpoint)
+    pa_root = hirq.inline_helpers(lib, pa, prefixes=("asca::",), only_if=lambda cb: cb.path.startswith("asca::") and cb.path.count("::") == 1
+                                  and any(n["e"] == "call" and "AliasLexer::new" in (hirq.strip(n["f"]).get("path") or "") for n in hirq.walk(cb.hir["body"])))
+    let_by_hid = {}
+    for n in hirq.walk(pa_root):
+        if n["e"] == "let" and n["pat"].get("p") == "bind" and n.get("init") is not None and "hid" in n["pat"]:
+            let_by_hid[n["pat"]["hid"]] = n["init"]
+    phid = {}
+    for p_ in pa.hir.get("params") or []:
+        for q in hirq.walk_pats(p_):
+            if q.get("p") == "bind":
+                phid[q["hid"]] = q["name"]
+
+    def resolve(e, depth=0):
+        """follow plain renamings (`let lines = into`) back to a parameter name or an AliasKind constant"""
+        e0 = hirq.strip(e)
+        while e0.get("e") in ("addr", "unary"):
+            e0 = hirq.strip(e0["a"])
+        if e0.get("e") == "path" and "alias::AliasKind::" in (e0.get("path") or ""):
+            return ("kind", e0["path"].rsplit("::", 1)[-1])
+        if e0.get("e") == "path" and "hid" in e0:
+            if e0["hid"] in phid:
+                return ("param", phid[e0["hid"]])
+            if e0["hid"] in let_by_hid and depth < 6:
+                return resolve(let_by_hid[e0["hid"]], depth + 1)
+        return None
 
     def kinds_in(node):
-        return {(n.get("path") or "").rsplit("::", 1)[-1] for n in hirq.walk(node) if n["e"] == "path" and "alias::AliasKind::" in (n.get("path") or "")}
-
+        out = set()
+        for n in hirq.walk(node):
+            if n["e"] == "path":
+                rv = resolve(n)
+                if rv and rv[0] == "kind":
+                    out.add(rv[1])
+        return out
+    loops = for_loops(pa_root)
+    loop_nodes = [(pat, it, body, ln, {id(x) for x in hirq.walk(body)} if body is not None else set()) for pat, it, body, ln in loops]
+    outer = [L for L in loop_nodes if not any(id(L[2]) in M[4] for M in loop_nodes if M is not L)]
+    colours = {}
     for pat, it, body, ln, ids in outer:
-        base = expr_name(_strip_iter(it))
+        base = resolve(_strip_iter(it))
         kinds = kinds_in(body)
-        if base[0] == "local" and base[-1] in params:
-            want = {"into": "Deromaniser", "from": "Romaniser"}.get(base[-1])
+        if base and base[0] == "param":
+            want = {"into": "Deromaniser", "from": "Romaniser"}.get(base[1])
             okk = want is not None and kinds == {want}
-            r.inst("parse_aliases: loop over `%s` parses with %s" % (base[-1], sorted(kinds)), fn_loc(pa, ln), "ok" if okk else "report")
+            r.inst("parse_aliases: loop over `%s` parses with %s" % (base[1], sorted(kinds)), fn_loc(pa, ln), "ok" if okk else "report")
             if not okk:
-                r.report("FLW-2|parse_aliases|loop|%s" % base[-1], fn_loc(pa, ln), pa.path,
-                         "the loop over `%s` uses alias kinds %s (expected %s only)" % (base[-1], sorted(kinds), want))
-    writes = []
-    for n in hirq.walk(pa.hir["body"]):
+                r.report("FLW-2|parse_aliases|loop|%s" % base[1], fn_loc(pa, ln), pa.path,
+                         "the loop over `%s` uses alias kinds %s (expected %s only)" % (base[1], sorted(kinds), want))
+    flows = []       # (target hid, kinds, source hids)
+    for n in hirq.walk(pa_root):
         if n["e"] == "mcall" and n["name"] in ("extend", "push", "append", "insert", "extend_from_slice"):
-            rc = arg_name(n["recv"])
+            rc = hirq.path_hid(n["recv"])
             k = set()
             for pat, it, body, ln, ids in outer:
                 if id(n) in ids:
                     k |= kinds_in(body)
-            mentioned = {m["local"] for a in n["args"] for m in hirq.walk(a) if m["e"] == "path" and "local" in m}
-            writes.append((rc, k, mentioned))
+            mentioned = {m["hid"] for a in n["args"] for m in hirq.walk(a) if m["e"] == "path" and "hid" in m}
+            if rc is not None:
+                flows.append((rc, k, mentioned))
+        if n["e"] == "let" and n["pat"].get("p") == "bind" and n.get("init") is not None and TRANSF in (n["pat"].get("ty") or ""):
+            mentioned = {m["hid"] for m in hirq.walk(n["init"]) if m["e"] == "path" and "hid" in m}
+            flows.append((n["pat"]["hid"], set(), mentioned))
     changed = True
     while changed:
         changed = False
-        for rc, k, mentioned in writes:
+        for rc, k, mentioned in flows:
             new = set(k)
             for m in mentioned:
                 new |= colours.get(m, set())
             if not new <= colours.get(rc, set()):
                 colours[rc] = colours.get(rc, set()) | new
                 changed = True
+    name_hids = {}
+    for n in hirq.walk(pa_root):
+        if n["e"] == "path" and "hid" in n and "local" in n:
+            name_hids.setdefault(n["local"], set()).add(n["hid"])
     colour_of = {}
-    for nm, ks in colours.items():
+    for nm in ret:
+        ks = set()
+        # the returned names are bindings of parse_aliases itself (un-shifted HirIds)
+        for h in name_hids.get(nm, ()):
+            if h < 100000:
+                ks |= colours.get(h, set())
         if ks == {"Deromaniser"}:
             colour_of[nm] = "derom"
         elif ks == {"Romaniser"}:
@@ -741,7 +783,10 @@ def flw10(ctx):
                 conds.append(x["cond"])
             child = x
             x = par.get(id(x))
-        tested = any(m["e"] == "path" and m.get("local") == "state_index" for c in conds for m in hirq.walk(c))
+        # a condition may name a local that was computed from state_index (`let only_final_bound_left = .. && state_index == ..`)
+        si_hids = {q.get("hid") for n_ in hirq.walk(root) if n_["e"] == "let" for q in hirq.walk_pats(n_["pat"]) if q.get("p") == "bind" and q.get("name") == "state_index"}
+        derived = hirq.derived_hids(root, si_hids)
+        tested = any(m["e"] == "path" and (m.get("local") == "state_index" or m.get("hid") in derived) for c in conds for m in hirq.walk(c))
         r.inst("after the scan loop a match is returned under %d conditions; `state_index` is %stested" % (len(conds), "" if tested else "not "), fn_loc(b, node["ln"]),
                "ok" if tested else "report")
         if not tested:
